@@ -38,7 +38,7 @@ from pyvc.contracts import Case, contract
 from pyvc.values import SObj, Opaque
 from contracts.c05_format_cast import Built
 
-PROPS = ("C03",)
+PROPS = ("C03", "C02")
 QUAL = "cohdl._compiler.frontend._generate_ir:IrGenerator._apply_impl"
 
 I.register_inline(out.Assign.__dict__["target"])
@@ -220,6 +220,78 @@ for end_body, end_orelse in itertools.product(ENDS, ENDS):
             it.events = []
             it.branch_results = {}
             it.ends = {"body": eb, "orelse": eo}
+
+        c.setup = setup
+        con.cases.append(c)
+
+
+# ---- (C) operator expressions: operands are converted first, left to right, then ONE IR node with the same
+#      operator over the operands' results (in source order) and the expression's result goes to every open block ----
+def _operand_apply(it, self, inp, open_blocks=None):
+    it.events.append(("operand", inp.fields["f_role"]))
+    return open_blocks
+
+
+def expr_spec(kind, n):
+    def spec(sx, self, inp, open_blocks):
+        it = sx.it
+        real_inp, real_blocks = sx.real_args[1], sx.real_args[2]
+        f = real_inp.fields
+
+        def holds(res):
+            if not (isinstance(res, list) and len(res) == len(real_blocks) and all(a is b for a, b in zip(res, real_blocks))):
+                return False
+            want_order = [("operand", "arg")] if kind == "UnaryOp" else [("operand", "lhs"), ("operand", "rhs")]
+            if it.events != want_order:
+                return False  # operands evaluated once each, left before right
+            for b in real_blocks:
+                c = b.fields["f_content"]
+                if len(c) != 1 or not isinstance(c[0], SObj):
+                    return False
+                nd = c[0].fields
+                if kind == "UnaryOp":
+                    ok = c[0].kind is ir.UnaryOp and nd["f_op"] is f["_op"] and nd["f_a"] == "RESULT-arg" and nd["f_result"] == "RESULT"
+                else:
+                    ok = c[0].kind is getattr(ir, kind) and nd["f_op"] is f["_op"] and nd["f_a"] == "RESULT-lhs" and nd["f_b"] == "RESULT-rhs" and nd["f_result"] == "RESULT"
+                if not ok:
+                    return False
+            return True
+
+        return C.Pred(holds, "one IR node (same operator, operand results in source order) per open block")
+
+    return spec
+
+
+def _expr_models():
+    return {
+        **CLASS_MODELS,
+        ir.UnaryOp: _mk(ir.UnaryOp, ["f_op", "f_a", "f_result"]),
+        ir.BinOp: _mk(ir.BinOp, ["f_op", "f_a", "f_b", "f_result"]),
+        ir.Compare: _mk(ir.Compare, ["f_op", "f_a", "f_b", "f_result"]),
+    }
+
+
+def _sub(role):
+    return SObj(out.Expression, f_role=role, _result=f"RESULT-{role}")
+
+
+for kind, mk in (
+    ("UnaryOp", lambda: SObj(out.UnaryOp, _op=ir.UnaryOp.Operator.NEG, _arg=_sub("arg"), _result="RESULT")),
+    ("BinOp", lambda: SObj(out.BinOp, _op=ir.BinOp.Operator.SUB, _lhs=_sub("lhs"), _rhs=_sub("rhs"), _result="RESULT")),
+    ("Compare", lambda: SObj(out.Compare, _op=ir.Compare.Operator.LT, _lhs=_sub("lhs"), _rhs=_sub("rhs"), _result="RESULT")),
+):
+    for n in (1, 2):
+        SELF = Built([], lambda env: SObj(GI.IrGenerator, _mode=GI.IrGenerator.Mode.SEQUENTIAL), lambda a: "<gen>", lambda a: None)
+        INP = Built([], (lambda mk: lambda env: mk())(mk), lambda a: "<expr>", lambda a: None)
+        OB = Built([], (lambda n: lambda env: [block(f"b{i}") for i in range(n)])(n), lambda a: "<blocks>", lambda a: None)
+        c = Case(f"expr:{kind},{n}-open", [SELF, INP, OB], expr_spec(kind, n))
+        c.native = False
+        c.models = BASE_MODELS + [(GI.IrGenerator.__dict__["apply"], _operand_apply), (out.Expression.__dict__["result"], lambda it, self: self.fields["_result"])]
+        c.interp_flags = {"class_call_models": _expr_models()}
+
+        def setup(it, ctx, args, env):
+            it.new_blocks = []
+            it.events = []
 
         c.setup = setup
         con.cases.append(c)
